@@ -9,8 +9,8 @@ fn fwd(op: &Op, _ctx: &dyn Context, operands: &mut dyn CoordinateSet) -> usize {
     let k_0 = op.params.k(0);
     let x_0 = op.params.x(0);
     let y_0 = op.params.y(0);
-    let lat_0 = op.params.lat(0);
-    let lon_0 = op.params.lon(0);
+    let lat_0 = op.params.lat(0).to_radians();
+    let lon_0 = op.params.lon(0).to_radians();
 
     let mut successes = 0_usize;
     for i in 0..operands.len() {
@@ -35,8 +35,8 @@ fn inv(op: &Op, _ctx: &dyn Context, operands: &mut dyn CoordinateSet) -> usize {
     let k_0 = op.params.k(0);
     let x_0 = op.params.x(0);
     let y_0 = op.params.y(0);
-    let lat_0 = op.params.lat(0);
-    let lon_0 = op.params.lon(0);
+    let lat_0 = op.params.lat(0).to_radians();
+    let lon_0 = op.params.lon(0).to_radians();
 
     let mut successes = 0_usize;
     for i in 0..operands.len() {
@@ -44,7 +44,7 @@ fn inv(op: &Op, _ctx: &dyn Context, operands: &mut dyn CoordinateSet) -> usize {
 
         // Easting -> Longitude
         x -= x_0;
-        let lon = x / (a * k_0) - lon_0;
+        let lon = x / (a * k_0) + lon_0;
 
         // Northing -> Latitude
         y -= y_0;
